@@ -9,10 +9,10 @@
    CallError | ConnClosed | ServerStops | ProcessDies | Broken.
 
    The full claim C11_contained is proved below for every applicable cell of 7 transports x
-   2 sides x pool off/on x 13 fault classes.  (On the tree as first pinned it was refuted for
+   2 sides x pool off/on x 14 fault classes.  (On the tree as first pinned it was refuted for
    eight cells; they were repaired in /repo by 6fc72b7, 363c1a3 and 7f6e14b, their replays are
    kept in corpus/C11-*.json and must now show a contained fault.) *)
-From Coq Require Import String List Bool.
+From Coq Require Import String List Bool NArith.
 From HV Require Import Gen.RecoverTable Model.Panic Proofs.PanicProofs.
 Import ListNotations.
 Open Scope string_scope.
@@ -54,9 +54,9 @@ Print Assumptions C11_recover_depth.
 
 (* ------------------------------------------------------------------ the cell space *)
 
-(* the bound: every cell of the type is in the enumerated product of 7 x 2 x 2 x 13 *)
+(* the bound: every cell of the type is in the enumerated product of 7 x 2 x 2 x 14 *)
 Theorem C11_cells_bound :
-  length all_cells = (7 * 2 * 2 * 13)%nat /\ (forall c : cell, In c all_cells) /\
+  length all_cells = (7 * 2 * 2 * 14)%nat /\ (forall c : cell, In c all_cells) /\
   (forall c, In c cells <-> applicable c = true).
 Proof. exact (conj all_cells_length (conj all_cells_complete cells_spec)). Qed.
 Print Assumptions C11_cells_bound.
@@ -108,7 +108,8 @@ Theorem C11_client_loops_recover_directly :
 Proof. exact client_loop_defer_is_direct. Qed.
 Print Assumptions C11_client_loops_recover_directly.
 
-(* Panics of the service function, of an invoke plugin and of the missing-method handler are
+(* Panics of the service function (hostile values included), of an invoke plugin and of the
+   missing-method handler are
    stopped by Service.Process' own closure on every transport and pool setting: they become
    the call's error before the IO plugins and the transport handler see anything unusual. *)
 Theorem C11_invoke_level_panics_stop_in_process : forall c : cell,
@@ -117,9 +118,56 @@ Theorem C11_invoke_level_panics_stop_in_process : forall c : cell,
 Proof. exact invoke_level_in_process. Qed.
 Print Assumptions C11_invoke_level_panics_stop_in_process.
 
+(* ---- the recovered value still has to be formatted ---------------------------------- *)
+(* PanicError.Error and .String call fmt.Sprintf and nothing else (or are themselves under a
+   recover): a panic value whose own Error()/String() method panics — a typed nil pointer, a
+   method that panics — is rendered as a placeholder instead of raising a second panic. *)
+Theorem C11_panic_error_formatting_shielded : format_shielded table = true.
+Proof. exact format_shielded_ok. Qed.
+Print Assumptions C11_panic_error_formatting_shielded.
+
+(* That shielding is what the containment of such values rests on, because the formatting
+   runs where no recover of the library reaches: Service.Handle encodes the error AFTER its
+   recovering closure has returned, Provider.process formats inside its deferred function.
+   A panic there would end the process under the mock transport, under fasthttp and in a
+   reverse provider, and cost the connection elsewhere. *)
+Theorem C11_error_formatting_runs_outside_recover :
+  (forall g, format_phase (mk TMock Server false FHostilePanic) = Some g -> panic_verdict table g = ProcessDies) /\
+  (forall g, format_phase (mk TFastHttp Server false FHostilePanic) = Some g -> panic_verdict table g = ProcessDies) /\
+  (forall g, format_phase (mk TTcp Server false FHostilePanic) = Some g -> panic_verdict table g = ConnClosed) /\
+  (forall g, format_phase (mk TTcp Client false FHostilePanic) = Some g -> panic_verdict table g = ProcessDies).
+Proof. exact format_phase_unprotected. Qed.
+Print Assumptions C11_error_formatting_runs_outside_recover.
+
+Theorem C11_hostile_value_verdict : forall t c g1 g2,
+  behaviour_of c = Panics g1 -> format_phase c = Some g2 ->
+  contained (panic_verdict t g1) = true ->
+  verdict_of t c = if format_shielded t then panic_verdict t g1 else panic_verdict t g2.
+Proof. exact hostile_rests_on_shielding. Qed.
+Print Assumptions C11_hostile_value_verdict.
+
+(* ---- tearing down a faulty client connection ---------------------------------------- *)
+(* In all three multiplexing clients conn.Exit unregisters the connection (onExit) BEFORE it
+   closes it (Close: OnClose hook, socket, pending calls): a call issued while the faulty
+   connection is being torn down is given a fresh connection. *)
+Theorem C11_teardown_unregisters_before_close :
+  forallb (teardown_unregisters_first table) mux_packages = true.
+Proof. exact teardown_order_ok. Qed.
+Print Assumptions C11_teardown_unregisters_before_close.
+
+Theorem C11_calls_during_teardown_unaffected : forall c : cell, during_teardown_ok table c = true.
+Proof. exact during_teardown_all. Qed.
+Print Assumptions C11_calls_during_teardown_unaffected.
+
+(* the size limit of the one transport that has one of its own *)
+Theorem C11_udp_limit :
+  udp_max_body = 65499%N /\ forall n, refused udp_max_body n = true <-> (65499 < n)%N.
+Proof. exact udp_limit. Qed.
+Print Assumptions C11_udp_limit.
+
 (* ------------------------------------------------------------------ the property *)
 
-(* EVERY fault cell — 7 transports x {server, client} x pool off/on x 13 fault classes, as far
+(* EVERY fault cell — 7 transports x {server, client} x pool off/on x 14 fault classes, as far
    as the combination exists — has the effect of an error for that call or the loss of that
    one connection: never the end of a serve loop, never the end of the process. *)
 Theorem C11_contained : forall c : cell,
@@ -181,7 +229,7 @@ Example decode_panic_stack :
   on_unprotected_goroutine (mk TMock Server false FDecodePanic) = true.
 Proof. vm_compute. repeat split; reflexivity. Qed.
 
-Example cell_counts : length cells = 130%nat /\ length known_escapes = 0%nat.
+Example cell_counts : length cells = 148%nat /\ length known_escapes = 0%nat.
 Proof. vm_compute. split; reflexivity. Qed.
 
 (* the guard of C11_goroutine_entries_partial is met by the goroutines that face the peers *)
